@@ -191,8 +191,10 @@ def mpo_case(ctx, idx, rng):
     kind = ('complex', 'real', 'int', 'mixed')[(idx // 5) % 4]
     mode = ('left', 'right')[idx % 2]
     qd = _qd(rng, d, layout)
-    src = str(rng.choice(['random', 'random', 'model', 'over', 'disjoint', 'zero-param-model']))
+    src = str(rng.choice(['random', 'random', 'model', 'over', 'disjoint', 'zero-param-model', 'charge-diagonal']))
     struct = STRUCT[(idx // 3) % len(STRUCT)]
+    if src == 'charge-diagonal' and (L < 2 or not np.any(qd - qd[0])):
+        src = 'random'
     if src == 'zero-param-model':
         name, p = ZERO_PARAM_MODELS[idx % len(ZERO_PARAM_MODELS)]
         L = max(L, 2)
@@ -205,6 +207,13 @@ def mpo_case(ctx, idx, rng):
     elif src == 'model' and d >= 2:
         name = {2: 'xxz', 3: 'xxz1'}[d]
         op = gen.model(name, L, gen.generic_params(rng)) if L >= 2 else gen.rand_mpo(rng, qd, L, 4, kind)
+    elif src == 'charge-diagonal':
+        # ALL bond labels zero although the physical labels are not (interaction-only Hamiltonians, t = 0 models), bonds larger than d^2 can fill:
+        # rank-deficient QR steps whose completion must still respect the physical labels
+        qDz = [np.zeros(1, dtype=int)] + [np.zeros(int(rng.integers(2, 8)), dtype=int) for _ in range(L - 1)] + [np.zeros(1, dtype=int)]
+        op = ptn.MPO(qd, qDz, fill='random', rng=np.random.default_rng(int(rng.integers(0, 2 ** 31))))
+        if kind == 'real':
+            op.A = [np.ascontiguousarray(a.real) for a in op.A]
     else:
         op = gen.rand_mpo(rng, qd, L, Dmax=(7 if src == 'over' else 4), kind=kind, layout='sorted' if layout == 'sorted' else 'unsorted')
         if src == 'disjoint' and L >= 2:
